@@ -863,7 +863,92 @@ def check_seq_range_guard(u):
     return obligations, failures, ["%s:%d guard on inverted seq ranges precedes line %d" % (file, _line(src, guard) if guard else 0, _line(src, o + first_mut.start()))]
 
 
-CHECKS = {"seq_range_guard": check_seq_range_guard, "exits_covered": check_exits_covered, "sub_lag_stops": check_sub_lag_stops, "single_snapshot": check_single_snapshot, "offer_loops": check_offer_loops, "speedy_prealloc": check_speedy_prealloc, "from_conn": check_from_conn, "sql_actor_scoping": check_sql_actor_scoping, "local_write_sequence": check_local_write_sequence, "insert_local_changes": check_insert_local_changes, "authz_layer": check_authz_layer, "readonly_guard": check_readonly_guard, "read_pool": check_read_pool}
+def check_schema_ddl(u):
+    """C15: apply_schema never executes destructive DDL.  The only `DROP TABLE` / `RENAME TO` statements of the function sit in the
+    else-branch of `if changed_cols.is_empty()`, which is unreachable because `if !changed_cols.is_empty() { return Err(..) }` precedes it
+    in the same block with no reassignment in between.  Every other statement text is CREATE TABLE/INDEX, ALTER TABLE … ADD COLUMN,
+    DROP INDEX (indexes may be dropped) or a crsql_* call."""
+    from .lex import iter_string_literals
+    file = u["file"]
+    src, msk, o, c = _fn_body(file, u["fn"])
+    obligations = ["destructive-ddl-only-in-the-branch-closed-by-the-changed-columns-guard", "no-other-destructive-statement-text"]
+    failures = []
+    lits = [(a, t) for (a, t) in iter_string_literals(src) if o <= a < c]
+    destructive = [(a, t) for (a, t) in lits if re.search(r"\bDROP\s+TABLE\b|\bRENAME\s+TO\b|\bDROP\s+COLUMN\b|\bDELETE\s+FROM\b|\bRENAME\s+COLUMN\b", t, re.I)]
+    g = re.search(r"\bif\s*!\s*changed_cols\s*\.\s*is_empty\s*\(\s*\)\s*\{", msk[o:c])
+    e = re.search(r"\bif\s+changed_cols\s*\.\s*is_empty\s*\(\s*\)\s*\{", msk[o:c])
+    if not g or not e:
+        if destructive:
+            raise LostAnchor("apply_schema: the changed_cols guard / branch was not found but destructive statement texts exist")
+        return obligations, failures, ["%s: no destructive statement text at all" % file]
+    gb = o + g.end() - 1
+    ge = match_delim(msk, gb)
+    if not re.search(r"\breturn\s+Err\b", msk[gb:ge]) or o + e.start() < ge:
+        raise LostAnchor("apply_schema: `if !changed_cols.is_empty() { return Err … }` does not precede `if changed_cols.is_empty()`")
+    if re.search(r"\bchanged_cols\s*=[^=]|&mut\s+changed_cols|changed_cols\s*\.\s*(insert|remove|clear|retain|drain|extend)\b", msk[ge:o + e.start()]):
+        failures.append((obligations[0], _line(src, ge), "changed_cols is modified between the guard and the branch"))
+    tb = o + e.end() - 1
+    te = match_delim(msk, tb)
+    me = re.match(r"\s*else\s*\{", msk[te + 1:])
+    else_span = None
+    if me:
+        eb = te + 1 + me.end() - 1
+        else_span = (eb, match_delim(msk, eb))
+    for a, t in destructive:
+        if else_span and else_span[0] < a < else_span[1]:
+            continue
+        failures.append((obligations[1] if else_span else obligations[0], _line(src, a), "destructive statement text `%s` outside the unreachable branch" % " ".join(t.split())[:80]))
+    return obligations, failures, ["%s:%d guard; %d destructive statement texts, all inside the else-branch at line %d" % (file, _line(src, gb), len(destructive), _line(src, else_span[0]) if else_span else 0)]
+
+
+def check_schema_atomic(u):
+    """C15: execute_schema applies a schema change atomically and only replaces the schema the node works with after the commit:
+    the candidate schema is a clone of the current one with the submitted tables inserted (never removed), it is constrained before any
+    SQL runs, apply_schema and the __corro_schema refresh run inside one immediate transaction that is committed with `?`, and
+    `*schema_write = new_schema` comes after `apply_res?` (so any error leaves both the database — rolled back on drop — and the
+    in-memory schema as they were)."""
+    file = u["file"]
+    src, msk, o, c = _fn_body(file, u["fn"])
+    body = msk[o:c]
+    obligations = ["candidate-schema-only-gains-tables", "constrained-before-any-sql", "applied-inside-one-immediate-transaction-committed-with-?",
+                   "in-memory-schema-replaced-only-after-successful-commit", "schema-write-lock-held-across-the-change"]
+    failures = []
+    def pos(rx):
+        m = re.search(rx, body)
+        return (o + m.start()) if m else None
+    p_lock = pos(r"agent\s*\.\s*schema\s*\(\s*\)\s*\.\s*write\s*\(")
+    p_clone = pos(r"schema_write\s*\.\s*clone\s*\(")
+    p_ins = pos(r"schema\s*\.\s*tables\s*\.\s*insert\s*\(")
+    p_constrain = pos(r"new_schema\s*\.\s*constrain\s*\(\s*\)\s*\?")
+    p_tx = pos(r"conn\s*\.\s*immediate_transaction\s*\(\s*\)\s*\?")
+    p_apply = pos(r"apply_schema\s*\(\s*&tx\s*,\s*&schema_write\s*,\s*&mut\s+new_schema\s*\)\s*\?")
+    p_commit = pos(r"tx\s*\.\s*commit\s*\(\s*\)\s*\?")
+    p_res = pos(r"apply_res\s*\?\s*;")
+    p_assign = pos(r"\*\s*schema_write\s*=\s*new_schema\s*;")
+    need = dict(lock=p_lock, clone=p_clone, insert=p_ins, constrain=p_constrain, tx=p_tx, apply=p_apply, commit=p_commit, res=p_res, assign=p_assign)
+    missing = [k for k, v in need.items() if v is None]
+    if missing:
+        # a missing `?`-propagated step is a violation of the corresponding obligation, a missing anchor of the function is undecided
+        if set(missing) & {"lock", "clone", "tx", "assign", "apply"}:
+            raise LostAnchor("execute_schema: anchors not found: %s" % missing)
+    if re.search(r"\b(new_schema|schema)\s*\.\s*tables\s*\.\s*(remove|swap_remove|shift_remove|retain|clear|drain)\s*\(", body):
+        failures.append((obligations[0], _line(src, o), "the candidate schema loses tables in execute_schema"))
+    if p_ins is None:
+        failures.append((obligations[0], _line(src, o), "submitted tables are not inserted into the clone of the current schema"))
+    if p_constrain is None or not (p_constrain < p_tx):
+        failures.append((obligations[1], _line(src, p_tx), "new_schema.constrain()? does not precede the transaction"))
+    if p_commit is None or not (p_tx < p_apply < p_commit):
+        failures.append((obligations[2], _line(src, p_apply), "apply_schema is not between immediate_transaction()? and tx.commit()?"))
+    if p_res is None or not (p_commit is not None and p_commit < p_res < p_assign):
+        failures.append((obligations[3], _line(src, p_assign), "`*schema_write = new_schema` is not dominated by `apply_res?` after the commit"))
+    if len(re.findall(r"\*\s*schema_write\s*=", body)) != 1:
+        failures.append((obligations[3], _line(src, p_assign), "the in-memory schema is assigned more than once"))
+    if not (p_lock < p_clone and p_lock < p_tx):
+        failures.append((obligations[4], _line(src, p_lock), "the schema write lock is not taken before the candidate is built and applied"))
+    return obligations, failures, ["%s:%d lock < clone+insert < constrain? < immediate_transaction? < apply_schema? < commit? < apply_res? < *schema_write = new_schema" % (file, _line(src, p_lock))]
+
+
+CHECKS = {"schema_ddl": check_schema_ddl, "schema_atomic": check_schema_atomic, "seq_range_guard": check_seq_range_guard, "exits_covered": check_exits_covered, "sub_lag_stops": check_sub_lag_stops, "single_snapshot": check_single_snapshot, "offer_loops": check_offer_loops, "speedy_prealloc": check_speedy_prealloc, "from_conn": check_from_conn, "sql_actor_scoping": check_sql_actor_scoping, "local_write_sequence": check_local_write_sequence, "insert_local_changes": check_insert_local_changes, "authz_layer": check_authz_layer, "readonly_guard": check_readonly_guard, "read_pool": check_read_pool}
 
 
 def run_unit(prop, u, tier, ctx, here):
